@@ -26,6 +26,7 @@ SHAPES_BASIC = PFX + """ex:S a sh:NodeShape ; sh:targetClass ex:C ; sh:property 
   sh:property [ sh:path ex:q ; sh:minCount 1 ] .
 ex:B a sh:NodeShape ; sh:targetClass ex:D ; sh:property [ sh:path ex:flag ; sh:hasValue true ] .
 ex:K a sh:NodeShape ; sh:targetNode ex:e ; sh:class ex:C .
+ex:Pt a sh:NodeShape ; sh:targetNode ex:e ; sh:property [ sh:path ex:q ; sh:pattern "^Y" ] .
 """
 SHAPES_FN = PFX + DECL + """
 ex:twice a sh:SPARQLFunction ; sh:parameter [ sh:path ex:op1 ; sh:datatype xsd:integer ] ; sh:returnType xsd:integer ;
@@ -109,6 +110,9 @@ EDITS = [
     # fix the data
     {"op": "edit", "name": "d", "update": ["PREFIX ex: <http://ex.test/> DELETE DATA { ex:b ex:p 2 }"]},
     {"op": "edit", "name": "d", "update": ["PREFIX ex: <http://ex.test/> INSERT DATA { ex:b ex:q \"a long value\" }"]},
+    # the modifier of a string component (same pattern, other flags)
+    {"op": "edit", "name": "s_basic", "update": ["PREFIX sh: <http://www.w3.org/ns/shacl#> INSERT { ?b sh:flags \"i\" } WHERE { ?b sh:pattern ?p }"]},
+    {"op": "edit", "name": "s_basic", "update": ["PREFIX sh: <http://www.w3.org/ns/shacl#> DELETE { ?b sh:flags ?f } WHERE { ?b sh:flags ?f }"]},
     # the class hierarchy inside the data graph (sh:class and sh:targetClass walk rdfs:subClassOf in it)
     {"op": "edit", "name": "d", "update": ["PREFIX ex: <http://ex.test/> PREFIX rdfs: <http://www.w3.org/2000/01/rdf-schema#> DELETE DATA { ex:E rdfs:subClassOf ex:C }"]},
     {"op": "edit", "name": "d", "update": ["PREFIX ex: <http://ex.test/> PREFIX rdfs: <http://www.w3.org/2000/01/rdf-schema#> DELETE DATA { ex:E rdfs:subClassOf ex:C } ; INSERT DATA { ex:E rdfs:subClassOf ex:D }"]},
